@@ -167,6 +167,11 @@ func (p *Prog) ivalStep(s ast.Stmt, cur ival, key string) ival {
 			}
 			return out
 		}
+		if as, ok := s.(*ast.AssignStmt); ok && as.Tok == token.ASSIGN && len(as.Lhs) == 1 && len(as.Rhs) == 1 && p.exprKey(as.Lhs[0]) == key {
+			if k, ok := constBig(p.constOf(as.Rhs[0])); ok {
+				return ival{lo: k, hi: new(big.Int).Set(k)}
+			}
+		}
 		if p.assignsTo(s, key) {
 			return ival{}
 		}
